@@ -1,9 +1,9 @@
 (* C06 — the framing contract: verdicts other than "need more bytes" persist when further bytes
    arrive; a proper prefix never yields a different verdict than the whole.
-   Pinned statements only; proofs in Proofs/FramingFacts.v. *)
+   Pinned statements only; proofs in Proofs/FramingFacts.v, Proofs/ViewFacts.v. *)
 From Coq Require Import NArith List Bool.
-From Flatty.Model Require Import Base Ty Layout Validate.
-From Flatty.Proofs Require Import ValidateFacts FramingFacts.
+From Flatty.Model Require Import Base Ty Layout Validate View.
+From Flatty.Proofs Require Import ValidateFacts FramingFacts ChainFacts ViewFacts.
 Open Scope N_scope.
 
 (* a slice that validates keeps validating whatever bytes follow it (the beginning of the next
@@ -25,6 +25,20 @@ Theorem c06_prefix : forall t a bs n, wf t = true -> narrow_ty t = true -> bytes
   validate t a (take n bs) = validate t a bs.
 Proof. exact validate_prefix. Qed.
 
+(* the bytes that follow a valid slice change neither size() nor the content read through the
+   accessors (capacities aside): the extended slice is the same value *)
+Theorem c06_extension_same : forall t a bs, wf t = true -> validate t a bs = Ok tt -> forall s,
+  size_m t (bs ++ s) = size_m t bs /\
+  exists v v', view t bs = Ok v /\ view t (bs ++ s) = Ok v' /\ strip v' = strip v.
+Proof. exact extension_same. Qed.
+
+(* a valid message that fills its slice exactly (size() = length): every proper prefix is
+   rejected as InsufficientSize, so a framing loop never accepts a truncated message *)
+Theorem c06_prefix_strict : forall t a m, wf t = true -> narrow_ty t = true -> bytes_ok m = true ->
+  validate t a m = Ok tt -> size_m t m = Ok (blen m) ->
+  forall n, n < blen m -> exists p, validate t a (take n m) = Err InsufficientSize p.
+Proof. exact prefix_strict. Qed.
+
 (* non-vacuity: struct { a: u32, b: FlatVec<u8, u16> } with two elements *)
 Example c06_example :
   let u8 := TInt {| isize := 1; ialign := 1; ibe := false |} in
@@ -34,9 +48,14 @@ Example c06_example :
   let m := [1;0;0;0; 2;0; 7;8] in
   wf t = true /\ narrow_ty t = true /\ validate t 0 m = Ok tt /\
   validate t 0 (m ++ [9;9;9]) = Ok tt /\
-  validate t 0 (take 7 m) = Err InsufficientSize 0 /\ validate t 0 (take 4 m) = Err InsufficientSize 0.
+  validate t 0 (take 7 m) = Err InsufficientSize 0 /\ validate t 0 (take 4 m) = Err InsufficientSize 0 /\
+  size_m t m = Ok (blen m) /\ size_m t (m ++ [9;9;9]) = Ok 8 /\ bytes_ok m = true /\
+  view t m = Ok (VNode 0 [VInt 1; VCont 2 [VInt 7; VInt 8]]) /\
+  view t (m ++ [9;9;9;9]) = Ok (VNode 0 [VInt 1; VCont 6 [VInt 7; VInt 8]]).
 Proof. vm_compute. repeat split; reflexivity. Qed.
 
 Print Assumptions c06_extension_valid.
 Print Assumptions c06_error_final.
 Print Assumptions c06_prefix.
+Print Assumptions c06_extension_same.
+Print Assumptions c06_prefix_strict.
